@@ -10,5 +10,6 @@ class Trashee(NamedTuple('FileToBeTrashed', [
 
 
 def should_skipped_by_specs(path):
-    basename = os.path.basename(path)
+    # 'd/./' and '../' name dot entries too: ignore trailing slashes
+    basename = os.path.basename(path.rstrip(os.path.sep))
     return (basename == ".") or (basename == "..")
